@@ -505,7 +505,7 @@ impl World for PsetFlowWorld {
         let faulty = mode == "faulty";
         match sc {
             "txrtt" => {
-                let mut tx = TxSpec::draw(p, 6, 6);
+                let mut tx = TxSpec::draw_with_corpus(p, 6, 6, 6);
                 tx.max_blob = tx.max_blob.min(300);
                 Case::TxRtt { tx, hop: HopPlan::draw(p, faulty), exotic_nonce: p.chance(1, 6) }
             }
@@ -528,12 +528,12 @@ impl World for PsetFlowWorld {
                 Case::Locktime { reqs, fallback: if p.coin() { Some(p.u32()) } else { None }, hop: if p.coin() { Some(HopPlan::draw(p, faulty)) } else { None } }
             }
             "uid" => {
-                let mut tx = TxSpec::draw(p, 4, 4);
+                let mut tx = TxSpec::draw_with_corpus(p, 4, 4, 6);
                 tx.max_blob = 60;
                 let n = p.urange(1, 12);
                 Case::Uid { tx, from_tx: p.coin(), ops: (0..n).map(|_| UidOp::draw(p, faulty)).collect() }
             }
-            "extract" => Case::Extract { pset: PsetSpec::draw(p) },
+            "extract" => Case::Extract { pset: PsetSpec::draw_with_corpus(p, 6) },
             "elip" => {
                 let mut ps = PsetSpec::draw(p);
                 ps.elip = false;
